@@ -72,4 +72,17 @@ let () =
         let b = List.nth ps (int_of_nat c) in
         List.map (fun cell -> lk qnnSF m.dl b (asg_of (m.scope c) cell)) (cells (List.map m.shape (m.scope c)))) (seqn 0 n) in
     String.concat " " (List.map (fun l -> str_list str_q l) tbls));
+  (* mp_check <tree edges> <order> : the GENERATED message list and dependency edges of JunctionTree.mp_order; is <order> a permutation of the
+     messages in which the source of every dependency edge precedes its target?  prints messages=<n> edges=<n> perm=<b> topo=<b> *)
+  reg "mp_check" (fun () ->
+    let te = rlist (fun () -> let a = rnat () in let b = rnat () in (a, b)) in
+    let order = rlist (fun () -> let a = rnat () in let b = rnat () in (a, b)) in
+    let msgs = mp_order_messages te in
+    let deps = mp_order_edges msgs in
+    let key (a, b) = (int_of_nat a, int_of_nat b) in
+    let pos = Hashtbl.create 64 in
+    List.iteri (fun i m -> Hashtbl.replace pos (key m) i) order;
+    let perm = List.length order = List.length msgs && Hashtbl.length pos = List.length order && List.for_all (fun m -> Hashtbl.mem pos (key m)) msgs in
+    let topo = perm && List.for_all (fun (m1, m2) -> Hashtbl.find pos (key m1) < Hashtbl.find pos (key m2)) deps in
+    Printf.sprintf "messages=%d edges=%d perm=%b topo=%b" (List.length msgs) (List.length deps) perm topo);
   ()
